@@ -6,7 +6,7 @@
 (* flow in both directions whatever write-compression / level toggles are  *)
 (* applied.  Written from the property text and RFC 7692 sections 5-7.     *)
 (*                                                                         *)
-(* A PROGRAM is [mode, dEn, uEn, offer, reply, steps]:                     *)
+(* A PROGRAM is [mode, dEn, uEn, offer, reply, rhx, steps]:                *)
 (*   mode "pair"   a real Dialer connected to a real Upgrader              *)
 (*        "offer"  a hand-made client offer against the real Upgrader      *)
 (*                 (endpoint "s" is the library, "c" the harness)          *)
@@ -14,6 +14,9 @@
 (*                 (endpoint "c" is the library, "s" the harness)          *)
 (*   dEn / uEn     Dialer / Upgrader EnableCompression                     *)
 (*   offer, reply  Sec-WebSocket-Extensions header lines (code points)     *)
+(*   rhx           [present, key, v]: the application passes a             *)
+(*                 responseHeader map with the entry key (a spelling of    *)
+(*                 Sec-WebSocket-Extensions) -> v to Upgrade (pair, offer) *)
 (*   steps         sequence of                                             *)
 (*     [op "send", side]           the endpoint writes a data message      *)
 (*     [op "feed", side, comp]     a message (compressed with RSV1 / plain) *)
@@ -66,28 +69,46 @@ LibSides(mode) == CASE mode = "pair" -> {"c", "s"} [] mode = "offer" -> {"s"} []
 N0 == [hs |-> "none", ann |-> "any", comp |-> "unknown", wc |-> [c |-> TRUE, s |-> TRUE], dead |-> {},
        ow |-> [c |-> {}, s |-> {}]]
 
-(* "any": the header is not lexically well-formed, or it announces the     *)
-(* extension but violates RFC 6455 9.1 (a quoted value that is not a       *)
-(* token): a client may use or refuse it.  A lexically well-formed header  *)
-(* in which permessage-deflate with both parameters appears only INSIDE a  *)
-(* quoted string does not announce it ("no").                              *)
+(* Domain decision (DESIGN 0.4): responseHeader keys are canonical; a      *)
+(* non-canonical spelling of the extension key is outside the domain       *)
+(* (nothing is asserted about such a handshake).                           *)
+NonCanonInDomain == FALSE
+CanonExtKey == <<83,101,99,45,87,101,98,115,111,99,107,101,116,45,69,120,116,101,110,115,105,111,110,115>>  \* Sec-Websocket-Extensions
+RhxPresent(pr) == pr.mode \in {"pair", "offer"} /\ pr.rhx.present
+OutOfDomain(pr) == RhxPresent(pr) /\ pr.rhx.key # CanonExtKey /\ ~NonCanonInDomain
+
+(* What the 101 announces.  The header lines are judged one by one: a      *)
+(* lexically well-formed line announces what it says whatever the other    *)
+(* lines look like (empty line, trailing comma, malformed line).           *)
+(*   "yes"  a well-formed line announces permessage-deflate with both      *)
+(*          parameters,                                                    *)
+(*   "no"   every line is well-formed and none does,                       *)
+(*   "any"  otherwise: a malformed line (that mentions the extension, or   *)
+(*          when no well-formed line announces it) or a quoted value that  *)
+(*          is not a token (RFC 6455 9.1): a client may use or refuse it.  *)
+(* A lexically well-formed header in which permessage-deflate appears only *)
+(* INSIDE a quoted string does not announce it.                            *)
 Ann(respExt) == LET x == Extensions(respExt) IN
-                IF x.mal THEN "any"
-                ELSE IF PmdBoth(x) THEN (IF x.nontok THEN "any" ELSE "yes") ELSE "no"
+                IF PmdBothIn(x.wfexts) THEN (IF x.nontok \/ x.malpmd THEN "any" ELSE "yes")
+                ELSE IF x.mal THEN "any" ELSE "no"
 
 (* The handshake observation.                                              *)
 HandshakeAllowed(pr, ev) ==
   LET reqX  == Extensions(ev.reqExt)
       respX == Extensions(ev.respExt)
   IN
-  \* a real Upgrader announces permessage-deflate only if enabled and offered,
-  \* and what it announces is well-formed
-  /\ (pr.mode \in {"pair", "offer"} /\ ev.ok) =>
-        /\ ~respX.mal /\ ~respX.nontok
-        /\ HasExt(respX, TokPmd) => (pr.uEn /\ (reqX.mal \/ HasExt(reqX, TokPmd)))
-  \* valid handshakes succeed; a client may refuse a reply that carries
-  \* extensions (RFC 6455 4.1: not offered / RFC 7692: unsupported parameters)
-  /\ ~ev.ok => (pr.mode = "reply" /\ ev.respExt # << >>)
+  \/ OutOfDomain(pr)
+  \/ \* a real Upgrader announces permessage-deflate only if enabled and offered
+     \* (whoever put the line there: its own negotiation or an application
+     \* supplied header), and what it announces is well-formed
+     /\ (pr.mode \in {"pair", "offer"} /\ ev.ok) =>
+           /\ ~respX.mal /\ ~respX.nontok
+           /\ HasExt(respX, TokPmd) => (pr.uEn /\ (reqX.mal \/ HasExt(reqX, TokPmd)))
+     \* valid handshakes succeed; a client may refuse a reply that carries
+     \* extensions (RFC 6455 4.1: not offered / RFC 7692: unsupported parameters);
+     \* an Upgrader may refuse an application supplied extension header (then no
+     \* connection exists and nothing can disagree)
+     /\ ~ev.ok => ((pr.mode = "reply" /\ ev.respExt # << >>) \/ RhxPresent(pr))
 
 AfterHandshake(ns, ev) ==
   [ns EXCEPT !.hs = IF ev.ok THEN "ok" ELSE "failed", !.ann = Ann(ev.respExt)]
@@ -151,8 +172,12 @@ LExtValue == TokPmd \o <<59, 32>> \o TokSNCT \o <<59, 32>> \o TokCNCT
 StrictReqExt(pr) == IF pr.mode = "offer" THEN pr.offer
                     ELSE IF pr.dEn THEN << LExtValue >> ELSE << >>
 StrictServerOn(pr) == pr.uEn /\ HasExt(Extensions(StrictReqExt(pr)), TokPmd)
+(* the Upgrader refuses a responseHeader with the canonical extension key;  *)
+(* any other spelling is copied into the 101 behind its own header         *)
+StrictRefused(pr) == RhxPresent(pr) /\ pr.rhx.key = CanonExtKey
 StrictRespExt(pr) == IF pr.mode = "reply" THEN pr.reply
-                     ELSE IF StrictServerOn(pr) THEN << LExtValue >> ELSE << >>
+                     ELSE (IF StrictServerOn(pr) THEN << LExtValue >> ELSE << >>)
+                          \o (IF RhxPresent(pr) /\ ~StrictRefused(pr) THEN << pr.rhx.v >> ELSE << >>)
 
 (* the client walks the announced extensions: the first permessage-deflate  *)
 (* decides (both parameters: on; otherwise the dial fails)                  *)
